@@ -636,13 +636,42 @@ async def _slots_back(repo, N, obs, phase, gate):
 _WD_COUNTER = itertools.count()
 
 
+def _enough_hangs(rep):
+    # every hanging case costs its whole time limit: once a few are on record, the remaining cases of a run add nothing
+    if rep.extra.get('_loop_blocked'):
+        return True
+    return sum(1 for v in rep.violations if v.get('signature', {}).get('kind') == 'hang') >= 3
+
+
 def check(case, ctx, rep: Report, chooser_factory, tag):
+    if _enough_hangs(rep):
+        return
     # a fresh directory every time: straggler threads of an earlier failed restore may still create files under the old one
     wd = ctx.scratch / f'c09-{tag}-{next(_WD_COUNTER)}'
-    try:
-        obs = run_case(case, wd, chooser_factory)
-    finally:
-        shutil.rmtree(wd, ignore_errors=True)
+    # the case runs in its own thread (own event loop): if the loop thread itself gets blocked (no time-out inside the loop can fire
+    # then), the main thread still notices
+    box = {}
+
+    def target():
+        try:
+            box['obs'] = run_case(case, wd, chooser_factory)
+        except BaseException as e:               # harness error: re-raised in the main thread
+            box['err'] = e
+    th = threading.Thread(target=target, name=f'c09-case-{tag}', daemon=True)
+    th.start()
+    th.join(90)
+    if th.is_alive():
+        sys.stdout, sys.stderr = sys.__stdout__, sys.__stderr__      # the blocked case still holds its output redirection
+        rep.case(case, nontrivial=True)
+        rep.violations.append({'what': 'the command does not terminate and the event loop itself is blocked (no time-out inside the loop fires): '
+                                       f'snapshot + restore with N={case["N"]}, {case["flavour"]} backend, failure injected at call {case["fail_at"]} of {case["fail_phase"]}',
+                               'signature': {'kind': 'hang', 'flavour': case['flavour'], 'loop': 'blocked'}, 'replay': case})
+        rep.extra['_loop_blocked'] = True     # patches installed by the blocked case are still in place: nothing more can be run here
+        return
+    shutil.rmtree(wd, ignore_errors=True)
+    if 'err' in box:
+        raise box['err']
+    obs = box['obs']
     N = case['N']
     for key in ('snapshot_max_outstanding', 'restore_max_outstanding'):
         if obs.get(key, 0) > N:
@@ -996,6 +1025,11 @@ def _run(ctx, n_random, n_forced, n_perm, rep):
         case = gen_case(ctx.rng)
         r = random.Random(case['order_seed'])
         check(case, ctx, rep, lambda r=r: (lambda n: r.randrange(n)), f'rnd{i}')
+    if rep.extra.get('_loop_blocked'):
+        rep.extra.pop('_loop_blocked')
+        for k in ('_slot_traces', '_pipe_traces', '_fin_traces'):
+            rep.extra.pop(k, None)
+        return
     queue_race_probe(ctx, rep)
     lost_wakeup_probe(ctx, rep)
     validate_slot_traces(rep)
